@@ -14,7 +14,7 @@ import z3
 
 __all__ = ["Ctx", "ctx", "SBool", "SNum", "SCplx", "Undecided", "StopPath", "PathRaise", "explore", "Q", "forall",
            "implies", "land", "lor", "lnot", "ite", "sreal", "sint", "sbool", "lift", "is_sym", "fresh_real",
-           "fresh_int", "fresh_bool", "to_z3", "conc", "spec_mode", "in_spec", "ssqrt", "ite_pc"]
+           "fresh_int", "fresh_bool", "to_z3", "conc", "spec_mode", "in_spec", "ssqrt", "ite_pc", "SOpaque"]
 
 
 class Undecided(Exception):
@@ -467,7 +467,6 @@ def _real(t):
 class SNum:
     """symbolic int or real"""
     __slots__ = ("t", "kind")
-    __array_priority__ = 1000
 
     def __init__(self, t, kind=None):
         self.t = t
@@ -659,7 +658,6 @@ def ssqrt(x):
 class SCplx:
     """complex number as a pair of real SNum"""
     __slots__ = ("re", "im")
-    __array_priority__ = 1000
 
     def __init__(self, re, im):
         self.re = lift(re)
@@ -755,6 +753,32 @@ class SCplx:
         return "SCplx(%r,%r)" % (self.re, self.im)
 
     def copy(self): return self
+
+
+class SOpaque:
+    """value of an uninterpreted sort (abstract results, abstract operators): only equality is available"""
+    __slots__ = ("t",)
+
+    def __init__(self, t):
+        self.t = t
+
+    def __eq__(self, o):
+        if isinstance(o, SOpaque):
+            return SBool(self.t == o.t)
+        return False
+
+    def __ne__(self, o):
+        if isinstance(o, SOpaque):
+            return SBool(self.t != o.t)
+        return True
+
+    __hash__ = None
+
+    def copy(self):
+        return self
+
+    def __repr__(self):
+        return "SOpaque(%s)" % self.t
 
 
 # --------------------------------------------------------------------------- constructors, connectives
